@@ -16,7 +16,10 @@ RULE = ('edges: every binary stream of length <= L (quick 6-7, thorough 9) meeti
         '(min_samples < 1, misaligned / different-rate / mixed chunks, unknown detect). Events: get_range_samples / '
         'get_latest_samples for every (start, end) pair around the block limits on blocks with events inside, on and outside the '
         'limits; combine_events on 0..4 blocks, aligned, misaligned and with different rates; every edges case also merges its own '
-        'blocks. Non-trivial: at least one event reported or selected. Distinct = distinct case dictionaries.')
+        'blocks. Time-based get_range / get_latest at fs 25000, 44100, 100000, 195312.5 with bounds k/fs around events and block limits, '
+        'k chosen (by search) so that (k/fs)*fs != k in binary64, on blocks around / starting at / ending at such k and on merged blocks; '
+        'the model is asked the sample query at the bounds the code\'s int(round(t*fs)) gives, the oracle at k. '
+        'Non-trivial: at least one event reported or selected. Distinct = distinct case dictionaries.')
 TRUSTED = ['harness/C13.py (generators; conversion of Events objects to integer tuples; brute-force transition oracle)',
            'numpy/pandas primitives used by edges/Events (concatenate, boolean cast, DataFrame filtering and concat) as modelled '
            'in coq/Edges/Model.v and coq/Runs/Model.v (exercised by the correspondence, not proved)']
@@ -24,7 +27,9 @@ ASSUMPTIONS = ['input chunks are 1-D or (1, n); N-dimensional input (ValueError)
                'annotated chunks share channel and metadata (pipeline.concat raises otherwise); a 1-D PipelineData needs a '
                'channel label c with c[0] == c (channel=None raises TypeError in edges: outside the property)',
                'plain input is used with a numeric fs (fs="auto" on plain input gives Events with fs None: outside the property)',
-               'sampling rates are integer-valued in the model; ts = sample / fs is compared exactly by the harness',
+               'sampling rates are integer-valued in the model (2*fs for the time-based cases); ts = sample / fs is compared exactly by the harness',
+               'seconds -> samples is int(round(t * fs)) computed by the harness with the same float expression; round((k/fs)*fs) = k is '
+               'checked per case (Common/FloatGrid theorem)',
                'the initial state counts as a settled run: a transition at the first sample is a transition of the stream']
 
 KINDS = {'rising': 1, 'falling': 0}
@@ -205,6 +210,9 @@ def cases(tier, rng):
             bl[1][1] += 1
             bl[2][3] = 25
         yield {'k': 'combine', 'blocks': bl}
+    # --- Events: time-based range queries (get_range / get_latest) at rates where (k / fs) * fs != k occurs
+    for c in _time_cases(tier, rng):
+        yield c
 
 
 def _rand_comp(rng, n, empties):
@@ -231,22 +239,79 @@ def _rand_block(rng, start, ln, fs):
 
 
 # ----------------------------------------------------------------------------
-def _canon_events(E):
-    """Events object -> [[(code, sample)...], start, end, fs], ts_ok"""
+def _canon_events(E, fs2=False):
+    """Events object -> [[(code, sample)...], start, end, fs], ts_ok
+    (fs2: the rate is reported as the integer 2*fs, for rates such as 195312.5)"""
     names = list(E.events['event'])
     samples = [int(s) for s in E.events['sample']]
     ts = [float(t) for t in E.events['ts']]
     fs = E.fs
+    fkey = fs * 2 if fs2 else fs
     ok = all(n in KINDS for n in names) and len(ts) == len(samples) and \
-        all(t == s / fs for s, t in zip(samples, ts)) and float(fs) == int(fs) and \
+        all(t == s / fs for s, t in zip(samples, ts)) and float(fkey) == int(fkey) and \
         all(float(s) == int(s) for s in E.events['sample'])
-    return [[[KINDS.get(n, -1), s] for n, s in zip(names, samples)], int(E.start), int(E.end), int(fs)], ok
+    return [[[KINDS.get(n, -1), s] for n, s in zip(names, samples)], int(E.start), int(E.end), int(fkey)], ok
 
 
-def _mk_events(B):
+def _mk_events(B, fs2=False):
     P = _P()
     inv = {1: 'rising', 0: 'falling'}
-    return P.Events([(inv[k], s) for k, s in B[0]], B[1], B[2], float(B[3]))
+    return P.Events([(inv[k], s) for k, s in B[0]], B[1], B[2], B[3] / 2.0 if fs2 else float(B[3]))
+
+
+# ---- time-based queries (Events.get_range / get_latest): bounds are k / fs
+TIME_RATES2 = [50000, 88200, 200000, 390625]          # 2 * fs for fs = 25000, 44100, 100000, 195312.5
+
+
+def quirky(fs, lo, hi):
+    """k in [lo, hi) whose float product (k / fs) * fs is not k (these tell round() from truncation)"""
+    return [k for k in range(lo, hi) if k != 0 and (k / fs) * fs != k]
+
+
+def _eff(t, fs):
+    """the sample number the code derives from a time: its own expression int(np.round(t * fs))"""
+    return int(np.round(t * fs))
+
+
+def _time_cases(tier, rng):
+    quick = tier == 'quick'
+    for fs2 in TIME_RATES2:
+        fs = fs2 / 2.0
+        qs = quirky(fs, 1, 6000)
+        below = [k for k in qs if (k / fs) * fs < k]
+        picks = (below[:2] + qs[:1] + [rng.choice(qs)]) if qs else []
+        if not quick:
+            picks += [rng.choice(qs) for _ in range(12)] + below[2:8]
+        picks += [rng.randint(10, 5000)]                       # an ordinary k as well
+        for k0 in picks:
+            evs = [[1, k0 - 2], [0, k0 - 1], [1, k0], [0, k0 + 1], [1, k0 + 3]]
+            around = [k0 - 3, k0 - 1, k0, k0 + 1, k0 + 4]
+            # a block around k0; a block starting at k0; a block ending at k0
+            for B in ([evs, k0 - 3, k0 + 4, fs2], [evs[2:], k0, k0 + 4, fs2], [evs[:2], k0 - 3, k0, fs2]):
+                ks = sorted(set([B[1], B[2]] + [k for k in around if B[1] - 1 <= k <= B[2] + 1]))
+                for ka in ks:
+                    for kb in ks:
+                        if ka <= kb:
+                            yield {'k': 'trange', 'blocks': [B], 'ka': ka, 'kb': kb}
+            # merged blocks meeting at k0
+            B1 = [evs[:2], k0 - 3, k0, fs2]
+            B2 = [evs[2:], k0, k0 + 4, fs2]
+            B3 = [[[0, k0 + 4], [1, k0 + 6]], k0 + 4, k0 + 7, fs2]
+            for bl in ([B1, B2], [B1, B2, B3]):
+                for ka, kb in ((k0, bl[-1][2]), (k0 - 3, k0), (k0 - 3, bl[-1][2]), (k0, k0 + 1), (k0 - 1, k0 + 1),
+                               (k0 + 1, k0 + 4), (k0, k0), (k0 - 4, k0), (k0, bl[-1][2] + 1)):
+                    yield {'k': 'trange', 'blocks': bl, 'ka': ka, 'kb': kb}
+        # get_latest: offsets relative to the end of the block, quirky negative offsets included
+        qneg = quirky(fs, -400, 0)
+        offs = sorted(set([-6, -5, -3, -2, -1, 0] + qneg[-3:] + ([rng.choice(qneg)] if qneg else [])))
+        for end in ([500, (quirky(fs, 400, 6000) or [777])[0]]):
+            lo = end + min(offs) - 1
+            evs = [[rng.randint(0, 1), end + o + d] for o in offs for d in (-1, 0) if lo <= end + o + d < end]
+            evs.sort(key=lambda e: e[1])
+            B = [evs, lo, end, fs2]
+            for ja in offs + [min(offs) - 2]:
+                for jb in (None, 0, -1, offs[len(offs) // 2], 1):
+                    yield {'k': 'tlatest', 'blocks': [B], 'ja': ja, 'jb': jb}
 
 
 def _array(bits, dtype, rng_i):
@@ -335,6 +400,26 @@ def impl(case):
             return {'block': None, 'ts_ok': True, 'err': str(e)[:80]}
         b, ok = _canon_events(R)
         return {'block': b, 'ts_ok': ok}
+    if case['k'] in ('trange', 'tlatest'):
+        bl = [_mk_events(B, fs2=True) for B in case['blocks']]
+        fs = bl[0].fs
+        E = bl[0] if len(bl) == 1 else P.combine_events(bl)
+        merged, mok = _canon_events(E, fs2=True)
+        if case['k'] == 'trange':
+            ta, tb = case['ka'] / fs, case['kb'] / fs
+            eff = [_eff(ta, fs), _eff(tb, fs)]
+            call = lambda: E.get_range(ta, tb)
+        else:
+            ta = case['ja'] / fs
+            tb = None if case['jb'] is None else case['jb'] / fs
+            eff = [_eff(ta, fs), 0 if tb is None else _eff(tb, fs)]
+            call = (lambda: E.get_latest(ta)) if tb is None else (lambda: E.get_latest(ta, tb))
+        try:
+            R = call()
+        except ValueError as e:
+            return {'block': None, 'ts_ok': mok, 'err': str(e)[:80], 'merged': merged, 'eff': eff}
+        b, ok = _canon_events(R, fs2=True)
+        return {'block': b, 'ts_ok': ok and mok, 'merged': merged, 'eff': eff}
     if case['k'] == 'combine':
         bl = [_mk_events(B) for B in case['blocks']]
         try:
@@ -373,6 +458,14 @@ def term(case, res):
         return t
     if case['k'] == 'range':
         return f"check_range {_blocklit(case['block'])} {zlit(case['a'])} {zlit(case['b'])} {optlit(res['block'], _blocklit)}"
+    if case['k'] in ('trange', 'tlatest'):
+        # the model side is the sample-based query at the bounds the code's own int(round(t * fs)) gives
+        fn = 'check_range' if case['k'] == 'trange' else 'check_latest'
+        t = f"{fn} {_blocklit(res['merged'])} {zlit(res['eff'][0])} {zlit(res['eff'][1])} {optlit(res['block'], _blocklit)}"
+        if len(case['blocks']) > 1:
+            t = (f"check_combine {listlit([_blocklit(b) for b in case['blocks']])} 0 (Some {_blocklit(res['merged'])})"
+                 f" && {t}")
+        return t
     if case['k'] == 'latest':
         ub = 0 if case['ub'] is None else case['ub']
         return f"check_latest {_blocklit(case['block'])} {zlit(case['lb'])} {zlit(ub)} {optlit(res['block'], _blocklit)}"
@@ -439,6 +532,30 @@ def oracle(case, res):
                 firstk = next((j for j, e in enumerate(ends) if e >= need), len(ends) - 1)
                 if bi > firstk:
                     return f'event {(kcode, s)} reported by chunk {bi}, later than {m} samples of further input (chunk {firstk})'
+        return None
+    if case['k'] in ('trange', 'tlatest'):
+        bl = case['blocks']
+        ev = [e for B in bl for e in B[0]]
+        start, end, fs2 = bl[0][1], bl[-1][2], bl[0][3]
+        fs = fs2 / 2.0
+        # the bounds are the times k / fs: the query is over the samples round(t * fs) = k
+        if case['k'] == 'trange':
+            a, b = round((case['ka'] / fs) * fs), round((case['kb'] / fs) * fs)
+            want_ab = (case['ka'], case['kb'])
+        else:
+            jb = 0 if case['jb'] is None else case['jb']
+            a, b = round((case['ja'] / fs) * fs) + end, round((jb / fs) * fs) + end
+            want_ab = (case['ja'] + end, jb + end)
+        if (a, b) != want_ab:
+            return f'harness: round((k/fs)*fs) != k for {want_ab} at fs={fs}'
+        what = f"{'get_range' if case['k'] == 'trange' else 'get_latest'} at fs={fs} for samples [{a},{b})"
+        if a < start or b > end:
+            return None if res['block'] is None else f'{what} outside [{start},{end}) was accepted'
+        if res['block'] is None:
+            return f'{what} within [{start},{end}) was refused: {res.get("err")}'
+        want = [[e for e in ev if a <= e[1] < b], a, b, fs2]
+        if res['block'] != want:
+            return f'{what} returned {res["block"]}, expected {want} (rate given as 2*fs)'
         return None
     if case['k'] in ('range', 'latest'):
         ev, start, end, fs = case['block']
